@@ -332,4 +332,214 @@ theorem rules_of_labels (hD : DivSem pb L) (hL : LocSem pb L Wt) : RulesOn pb Wt
 
 end Forward2
 
+/-! ### from a shading that obeys the rules to labels -/
+
+theorem sameIsland_refl {pb : Problem} {Wt : Nat → Nat → Bool} {p : Nat × Nat} (hp : p ∈ whiteSet pb Wt) :
+    SameIsland pb Wt p p := ⟨hp, hp, SimpleGraph.Reachable.refl _⟩
+
+theorem sameIsland_symm {pb : Problem} {Wt : Nat → Nat → Bool} {p q : Nat × Nat} (h : SameIsland pb Wt p q) :
+    SameIsland pb Wt q p := by
+  obtain ⟨hp, hq, hr⟩ := h
+  exact ⟨hq, hp, hr.symm⟩
+
+theorem sameIsland_trans {pb : Problem} {Wt : Nat → Nat → Bool} {p q r : Nat × Nat} (h1 : SameIsland pb Wt p q)
+    (h2 : SameIsland pb Wt q r) : SameIsland pb Wt p r := by
+  obtain ⟨hp, hq, hr1⟩ := h1
+  obtain ⟨hq', hr, hr2⟩ := h2
+  exact ⟨hp, hr, hr1.trans hr2⟩
+
+theorem sameIsland_of_adj {pb : Problem} {Wt : Nat → Nat → Bool} {a b : Nat × Nat} (ha : a ∈ whiteSet pb Wt)
+    (hb : b ∈ whiteSet pb Wt) (hadj : cellGraph.Adj a b) : SameIsland pb Wt a b :=
+  ⟨ha, hb, SimpleGraph.Adj.reachable (show (cellGraph.induce (whiteSet pb Wt)).Adj ⟨a, ha⟩ ⟨b, hb⟩ from hadj)⟩
+
+open Classical in
+/-- The cell of the clue `t` lies on the island of `(y, x)`. -/
+noncomputable def onIsland (pb : Problem) (Wt : Nat → Nat → Bool) (y x : Nat) (t : Nat × Nat × Int) : Bool :=
+  decide (SameIsland pb Wt (y, x) (t.1, t.2.1))
+
+theorem onIsland_iff {pb : Problem} {Wt : Nat → Nat → Bool} {y x : Nat} {t : Nat × Nat × Int} :
+    onIsland pb Wt y x t = true ↔ SameIsland pb Wt (y, x) (t.1, t.2.1) := by
+  unfold onIsland
+  exact @decide_eq_true_iff _ (Classical.propDecidable _)
+
+/-- Index (in the clue list) of the first clue whose cell lies on the island of `(y, x)`. -/
+noncomputable def clueIdx (pb : Problem) (Wt : Nat → Nat → Bool) (y x : Nat) : Nat :=
+  (clueList pb).findIdx (onIsland pb Wt y x)
+
+/-- The labels of a shading: 0 on the sea, `j + 1` on the island of clue number `j`. -/
+noncomputable def labelOf (pb : Problem) (Wt : Nat → Nat → Bool) (y x : Nat) : Int :=
+  if Wt y x = true then (clueIdx pb Wt y x : Int) + 1 else 0
+
+section Backward
+variable {pb : Problem} {Wt : Nat → Nat → Bool}
+
+/-- A white cell has a clue on its island: the index is in range and names such a clue. -/
+theorem clueIdx_spec (hR : RulesOn pb Wt) {y x : Nat} (hy : y < pb.height) (hx : x < pb.width)
+    (hw : Wt y x = true) :
+    ∃ t, (clueList pb)[clueIdx pb Wt y x]? = some t ∧ SameIsland pb Wt (y, x) (t.1, t.2.1) := by
+  obtain ⟨c, ⟨c1, c2, c3, c4⟩, _⟩ := hR.2.1 y hy x hx hw
+  obtain ⟨j, hj⟩ := clue_has_index c1 c2 c3
+  have hex : ∃ t ∈ clueList pb, onIsland pb Wt y x t = true :=
+    ⟨_, List.mem_of_getElem? hj, onIsland_iff.2 c4⟩
+  have hlt : clueIdx pb Wt y x < (clueList pb).length := List.findIdx_lt_length_of_exists hex
+  refine ⟨(clueList pb)[clueIdx pb Wt y x], List.getElem?_eq_getElem hlt, ?_⟩
+  exact onIsland_iff.1 (List.findIdx_getElem (w := hlt))
+
+theorem clueIdx_congr {y x y' x' : Nat} (h : SameIsland pb Wt (y, x) (y', x')) :
+    clueIdx pb Wt y x = clueIdx pb Wt y' x' := by
+  unfold clueIdx
+  congr 1
+  funext t
+  have : SameIsland pb Wt (y, x) (t.1, t.2.1) ↔ SameIsland pb Wt (y', x') (t.1, t.2.1) :=
+    ⟨fun h' => sameIsland_trans (sameIsland_symm h) h', fun h' => sameIsland_trans h h'⟩
+  rw [Bool.eq_iff_iff, onIsland_iff, onIsland_iff]
+  exact this
+
+theorem label_congr {p q : Nat × Nat} (h : SameIsland pb Wt p q) : labelOf pb Wt p.1 p.2 = labelOf pb Wt q.1 q.2 := by
+  have hp := h.1
+  have hq := h.2.1
+  unfold labelOf
+  rw [if_pos hp.2.2, if_pos hq.2.2, clueIdx_congr (y := p.1) (x := p.2) (y' := q.1) (x' := q.2) h]
+
+theorem sameIsland_of_labelOf (hR : RulesOn pb Wt) {p q : Nat × Nat} (hp : p ∈ whiteSet pb Wt)
+    (hq : q ∈ whiteSet pb Wt) (h : labelOf pb Wt p.1 p.2 = labelOf pb Wt q.1 q.2) : SameIsland pb Wt p q := by
+  unfold labelOf at h
+  rw [if_pos hp.2.2, if_pos hq.2.2] at h
+  have hi : clueIdx pb Wt p.1 p.2 = clueIdx pb Wt q.1 q.2 := by omega
+  obtain ⟨t, ht, hs⟩ := clueIdx_spec hR hp.1 hp.2.1 hp.2.2
+  obtain ⟨t', ht', hs'⟩ := clueIdx_spec hR hq.1 hq.2.1 hq.2.2
+  rw [hi, ht'] at ht
+  cases ht
+  exact sameIsland_trans hs (sameIsland_symm hs')
+
+/-- The cell of clue number `j` carries the label `j + 1`. -/
+theorem labelOf_clue (hR : RulesOn pb Wt) {j : Nat} {t : Nat × Nat × Int} (ht : (clueList pb)[j]? = some t) :
+    labelOf pb Wt t.1 t.2.1 = (j : Int) + 1 := by
+  obtain ⟨t1, t2, _, t4, _⟩ := clue_of_index ht
+  have hw : Wt t.1 t.2.1 = true := hR.1 _ t1 _ t2 t4
+  have hp : (t.1, t.2.1) ∈ whiteSet pb Wt := ⟨t1, t2, hw⟩
+  obtain ⟨s, hs, hss⟩ := clueIdx_spec hR t1 t2 hw
+  obtain ⟨s1, s2, _, s4, _⟩ := clue_of_index hs
+  obtain ⟨c, _, huniq⟩ := hR.2.1 _ t1 _ t2 hw
+  have e1 := huniq (t.1, t.2.1) ⟨t1, t2, t4, sameIsland_refl hp⟩
+  have e2 := huniq (s.1, s.2.1) ⟨s1, s2, s4, hss⟩
+  have e : (s.1, s.2.1) = (t.1, t.2.1) := e2.trans e1.symm
+  have hidx := clue_index_unique hs ht (Prod.mk.inj e).1 (Prod.mk.inj e).2
+  unfold labelOf
+  rw [if_pos hw, hidx]
+
+theorem labelOf_white (hR : RulesOn pb Wt) {y x : Nat} (hy : y < pb.height) (hx : x < pb.width) :
+    (Wt y x = true ↔ labelOf pb Wt y x ≠ 0) ∧ 0 ≤ labelOf pb Wt y x ∧ labelOf pb Wt y x ≤ (K pb : Int) := by
+  unfold labelOf
+  cases hw : Wt y x with
+  | false => simp
+  | true =>
+    obtain ⟨t, ht, _⟩ := clueIdx_spec hR hy hx hw
+    have := (clue_of_index ht).2.2.2.2
+    simp only [if_true]
+    refine ⟨⟨fun _ => by omega, fun _ => trivial⟩, by omega, by omega⟩
+
+theorem divSem_labelOf (hR : RulesOn pb Wt) : DivSem pb (labelOf pb Wt) := by
+  refine ⟨fun y x hy hx => (labelOf_white hR hy hx).2, ?_, ?_, fun j t ht => labelOf_clue hR ht⟩
+  · -- classes are connected
+    intro c hc
+    rcases Nat.eq_zero_or_pos c with h0 | hpos
+    · subst h0
+      refine (cellsConnected_congr ?_).2 hR.2.2.2.2.1
+      intro y x hy hx
+      have := (labelOf_white hR hy hx).1
+      simp only [Int.natCast_zero]
+      constructor
+      · intro h0
+        cases hb : Wt y x with
+        | false => rfl
+        | true => exact absurd h0 (this.1 hb)
+      · intro hb
+        by_contra hne
+        have := this.2 hne
+        rw [hb] at this; cases this
+    · have hsub : ∀ q : Nat × Nat, q ∈ cellSet pb.height pb.width (fun y x => labelOf pb Wt y x = (c : Int)) →
+          q ∈ whiteSet pb Wt := by
+        rintro ⟨y, x⟩ ⟨h1, h2, h3⟩
+        simp only at h1 h2 h3
+        exact ⟨h1, h2, (labelOf_white hR h1 h2).1.2 (by rw [h3]; omega)⟩
+      intro u v
+      obtain ⟨p, hpT⟩ := u
+      obtain ⟨q, hqT⟩ := v
+      have hp := hsub p hpT
+      have hq := hsub q hqT
+      have hs : SameIsland pb Wt p q := sameIsland_of_labelOf hR hp hq (by
+        have a := hpT.2.2; have b := hqT.2.2; simp only at a b; rw [a, b])
+      obtain ⟨_, _, hr⟩ := hs
+      obtain ⟨_, hr'⟩ := reach_in_sub cellGraph (whiteSet pb Wt)
+        (cellSet pb.height pb.width (fun y x => labelOf pb Wt y x = (c : Int))) (by
+          intro a b ha hb hadj
+          have hab := label_congr (sameIsland_of_adj (hsub a ha) hb hadj)
+          refine ⟨hb.1, hb.2.1, ?_⟩
+          show labelOf pb Wt b.1 b.2 = (c : Int)
+          rw [← hab]; exact ha.2.2) p q hp hq hpT hr
+      exact hr'
+  · -- every label is used
+    intro c hc
+    rcases Nat.eq_zero_or_pos c with h0 | hpos
+    · subst h0
+      obtain ⟨y, hy, x, hx, hb⟩ := hR.2.2.2.2.2.1
+      refine ⟨y, x, hy, hx, ?_⟩
+      unfold labelOf
+      rw [hb]; simp
+    · have hj : c - 1 < (clueList pb).length := by unfold K at hc; omega
+      have ht := List.getElem?_eq_getElem hj
+      obtain ⟨t1, t2, _⟩ := clue_of_index ht
+      refine ⟨_, _, t1, t2, ?_⟩
+      rw [labelOf_clue hR ht]
+      omega
+
+end Backward
+
+section Backward2
+variable {pb : Problem} {Wt : Nat → Nat → Bool}
+
+theorem island_labelOf (hR : RulesOn pb Wt) {j : Nat} {t : Nat × Nat × Int} (ht : (clueList pb)[j]? = some t) :
+    island pb Wt (t.1, t.2.1) = cellSet pb.height pb.width (fun y x => labelOf pb Wt y x = (j : Int) + 1) := by
+  obtain ⟨t1, t2, _, t4, _⟩ := clue_of_index ht
+  have hw : (t.1, t.2.1) ∈ whiteSet pb Wt := ⟨t1, t2, hR.1 _ t1 _ t2 t4⟩
+  have hl := labelOf_clue hR ht
+  ext q
+  simp only [island, Set.mem_ofPred_eq]
+  constructor
+  · intro h
+    have := label_congr h
+    obtain ⟨_, hq, _⟩ := h
+    exact ⟨hq.1, hq.2.1, show labelOf pb Wt q.1 q.2 = (j : Int) + 1 by rw [← this]; exact hl⟩
+  · rintro ⟨h1, h2, h3⟩
+    have hq : q ∈ whiteSet pb Wt := ⟨h1, h2, (labelOf_white hR h1 h2).1.2 (by rw [h3]; omega)⟩
+    exact sameIsland_of_labelOf hR hw hq (by show labelOf pb Wt t.1 t.2.1 = labelOf pb Wt q.1 q.2; rw [hl, h3])
+
+theorem locSem_labelOf (hR : RulesOn pb Wt) : LocSem pb (labelOf pb Wt) Wt := by
+  refine ⟨fun y x hy hx => (labelOf_white hR hy hx).1, ?_, ?_, hR.2.2.2.2.2.2, ?_⟩
+  · intro y x hy hx h1 h2
+    exact label_congr (p := (y, x)) (q := (y + 1, x))
+      (sameIsland_of_adj ⟨by omega, hx, h1⟩ ⟨hy, hx, h2⟩ (Or.inr ⟨rfl, Or.inl rfl⟩))
+  · intro y x hy hx h1 h2
+    exact label_congr (p := (y, x)) (q := (y, x + 1))
+      (sameIsland_of_adj ⟨hy, by omega, h1⟩ ⟨hy, hx, h2⟩ (Or.inl ⟨rfl, Or.inl rfl⟩))
+  · intro j t ht
+    obtain ⟨t1, t2, t3, t4, _⟩ := clue_of_index ht
+    have hcard : (island pb Wt (t.1, t.2.1)).ncard = cnt pb (labelOf pb Wt) ((j : Int) + 1) := by
+      rw [island_labelOf hR ht, ncard_cellSet]; rfl
+    constructor
+    · intro hpos
+      rw [← hcard, t3]
+      exact hR.2.2.1 _ t1 _ t2 (by omega)
+    · intro hm1 low hlow
+      rw [← hcard]
+      exact hR.2.2.2.1 low hlow _ t1 _ t2 (by omega)
+
+/-- THE combinatorial equivalence: a shading obeys the rules iff it admits region labels that meet what
+`division_connected` and the local constraints demand. -/
+theorem labels_iff_rules : (∃ L, DivSem pb L ∧ LocSem pb L Wt) ↔ RulesOn pb Wt :=
+  ⟨fun ⟨_, hD, hL⟩ => rules_of_labels hD hL, fun hR => ⟨_, divSem_labelOf hR, locSem_labelOf hR⟩⟩
+
+end Backward2
+
 end Cspuz.Proofs.C11NurikabeC
